@@ -25,13 +25,27 @@ func (cit *CallIterator) M__iter__() (Object, error) {
 
 // Get next one from the iteration
 func (cit *CallIterator) M__next__() (Object, error) {
+	// Once the sentinel has been seen the iterator is finished for
+	// good: the callable is not called again
+	if cit.callable == nil {
+		return nil, StopIteration
+	}
 	value, err := Call(cit.callable, nil, nil)
 
 	if err != nil {
+		if IsException(StopIteration, err) {
+			cit.callable = nil
+		}
 		return nil, err
 	}
 
-	if value == cit.sentinel {
+	// The value is compared with the sentinel the way == does
+	eq, err := Eq(value, cit.sentinel)
+	if err != nil {
+		return nil, err
+	}
+	if value == cit.sentinel || eq == True {
+		cit.callable = nil
 		return nil, StopIteration
 	}
 
